@@ -494,9 +494,30 @@ func (eng *Engine) replayModel(prop string, o *Obligation, rep map[string]any) {
 	text := string(out)
 	rep["replay_test"] = map[string]any{"pkg_dir": pkgDir, "source": src.String()}
 	rep["replay_output"] = truncate(text, 6000)
-	if strings.Contains(text, "VERIF-REPLAY-PANIC") {
+	// the panic must be of the kind the obligation is about (a nil dereference on an input the
+	// replayer could not fully build does not confirm a bounds obligation)
+	want := map[string][]string{
+		"bounds":     {"index out of range"},
+		"slice":      {"slice bounds out of range", "cannot convert slice"},
+		"nil":        {"nil pointer dereference", "nil map"},
+		"div0":       {"integer divide by zero"},
+		"make-neg":   {"makeslice", "out of range"},
+		"typeassert": {"interface conversion"},
+	}[o.Kind]
+	matches := strings.Contains(text, "VERIF-REPLAY-PANIC")
+	if matches && len(want) > 0 {
+		matches = false
+		for _, w := range want {
+			if strings.Contains(text, w) {
+				matches = true
+			}
+		}
+	}
+	if matches {
 		o.replayed = true
 		rep["replay_result"] = "the real function panics on the solver's input"
+	} else if strings.Contains(text, "VERIF-REPLAY-PANIC") {
+		rep["replay_result"] = "the real function panicked on this input, but not with the kind of panic the obligation is about (input only partly reconstructed)"
 	} else {
 		rep["replay_result"] = "the real function did not panic on this input (the model relies on something the replayer cannot build, or the obligation is not a panic)"
 	}
